@@ -287,5 +287,226 @@ instance (range tag : List Str) : Decidable (extFilterDecl range tag) := by
   unfold extFilterDecl
   split <;> infer_instance
 
+/-! ### `filterCore` against the RFC algorithm -/
+
+theorem filterCore_eq (r : Str) (rs : List Str) (s : Str) (ss : List Str)
+    (hwf : WellFormedRange (r :: rs)) :
+    Lang.filterCore (r :: rs) (s :: ss) =
+      (extFilterAlg (r :: rs) (s :: ss) && !(r :: rs == [star] && s :: ss == emptyText)) := by
+  have h1 : ∀ x ∈ rs, x ≠ star := fun x hx => (hwf x hx).2
+  have h2 : ∀ x ∈ rs, x ≠ [] := fun x hx => (hwf x hx).1
+  unfold Lang.filterCore extFilterAlg
+  simp only []
+  rw [star_toStr, filterLoop_eq_rfcLoop ss rs h1 h2]
+  by_cases hstar : r = star
+  · subst hstar
+    have : star.isEmpty = false := by decide
+    cases rs with
+    | nil => cases ss <;> cases s <;> simp [emptyText, rfcLoop_nil, this]
+    | cons x xs =>
+      have hx : (x == star) = false := by simpa using h1 x (by simp)
+      cases ss <;> cases s <;> simp [emptyText, rfcLoop_cons_nil, hx, this]
+  · have hstar' : (r == star) = false := by simpa using hstar
+    by_cases hrs : r = s
+    · subst hrs
+      cases rs <;> cases ss <;> simp [hstar', emptyText, rfcLoop_nil]
+    · simp [hstar, hrs]
+
+/-! ### Algorithm, declarative and positional forms -/
+
+theorem stripWild_tail_no_star {range : List Str} {r : Str} {rs : List Str}
+    (h : stripWild range = r :: rs) : ∀ x ∈ rs, x ≠ star := by
+  cases range with
+  | nil => cases h
+  | cons a as =>
+    simp only [stripWild, List.cons.injEq] at h
+    intro x hx
+    rw [← h.2, List.mem_filter] at hx
+    simpa using hx.2
+
+theorem extFilterAlg_stripWild (range tag : List Str) :
+    extFilterAlg (stripWild range) tag = extFilterAlg range tag := by
+  cases range with
+  | nil => rfl
+  | cons r rs =>
+    cases tag with
+    | nil => rfl
+    | cons t ts => simp only [stripWild, extFilterAlg]; rw [← rfcLoop_filter_star]
+
+theorem extFilterAlg_iff_decl (range tag : List Str) :
+    extFilterAlg range tag = true ↔ extFilterDecl range tag := by
+  rw [← extFilterAlg_stripWild]
+  unfold extFilterDecl
+  cases h : stripWild range with
+  | nil => simp [extFilterAlg]
+  | cons r rs =>
+    cases tag with
+    | nil => simp [extFilterAlg]
+    | cons t ts =>
+      have hns := stripWild_tail_no_star h
+      simp [extFilterAlg, rfcLoop_iff_embeds ts rs hns]
+
+theorem embedsAt_of_embeds {rs ts : List Str} (h : Embeds rs ts) : ∃ ps, EmbedsAt rs ts ps := by
+  induction h with
+  | done ts => exact ⟨[], by simp [EmbedsAt]⟩
+  | here r rs ts _ ih =>
+    obtain ⟨ps, hps⟩ := ih
+    exact ⟨0 :: ps, by simp [EmbedsAt, hps]⟩
+  | skip r rs t ts ht _ ih =>
+    obtain ⟨ps, hps⟩ := ih
+    cases ps with
+    | nil => simp [EmbedsAt] at hps
+    | cons p ps =>
+      refine ⟨(p + 1) :: ps, ?_⟩
+      simp only [EmbedsAt] at hps ⊢
+      obtain ⟨a, b, c⟩ := hps
+      refine ⟨?_, ?_, ?_⟩
+      · intro x hx
+        simp only [List.take_succ_cons, List.mem_cons] at hx
+        rcases hx with rfl | hx
+        · exact ht
+        · exact a x hx
+      · simpa using b
+      · simpa using c
+
+theorem embeds_of_embedsAt (rs : List Str) :
+    ∀ (ts : List Str) (ps : List Nat), EmbedsAt rs ts ps → Embeds rs ts := by
+  induction rs with
+  | nil => intro ts _ _; exact Embeds.done ts
+  | cons r rs ihr =>
+    intro ts ps h
+    cases ps with
+    | nil => simp [EmbedsAt] at h
+    | cons p ps =>
+      induction p generalizing ts with
+      | zero =>
+        cases ts with
+        | nil => simp [EmbedsAt] at h
+        | cons t ts =>
+          simp only [EmbedsAt, List.take_zero, List.not_mem_nil, false_imp_iff, implies_true,
+            true_and] at h
+          simp only [List.getElem?_cons_zero, Option.some.injEq, Nat.zero_add, List.drop_succ_cons,
+            List.drop_zero] at h
+          obtain ⟨rfl, h'⟩ := h
+          exact Embeds.here _ _ _ (ihr ts ps h')
+      | succ p ih =>
+        cases ts with
+        | nil => simp [EmbedsAt] at h
+        | cons t ts =>
+          simp only [EmbedsAt, List.take_succ_cons, List.mem_cons, forall_eq_or_imp,
+            List.getElem?_cons_succ, List.drop_succ_cons] at h
+          obtain ⟨⟨ht, a⟩, b, c⟩ := h
+          exact Embeds.skip _ _ _ _ ht (ih ts ⟨a, b, c⟩)
+
+theorem embeds_iff_embedsAt (rs ts : List Str) : Embeds rs ts ↔ ∃ ps, EmbedsAt rs ts ps :=
+  ⟨embedsAt_of_embeds, fun ⟨ps, h⟩ => embeds_of_embedsAt rs ts ps h⟩
+
+theorem extFilterDecl_iff_pos (range tag : List Str) :
+    extFilterDecl range tag ↔ extFilterPos range tag := by
+  unfold extFilterDecl extFilterPos
+  split
+  · rw [embeds_iff_embedsAt]
+  · exact Iff.rfl
+
+/-! ### The model against the C13 specification -/
+
+theorem wellFormedTag_cons {tag : List Str} (ht : WellFormedTag tag) :
+    ∃ s ss, tag = s :: ss ∧ (s = [] → ss = []) := by
+  rcases ht with h | ⟨hne, hall⟩
+  · exact ⟨[], [], h, fun _ => rfl⟩
+  · cases tag with
+    | nil => exact absurd rfl hne
+    | cons s ss => exact ⟨s, ss, rfl, fun hs => absurd hs (hall s (by simp))⟩
+
+theorem filterCore_eq_c13Match (range tag : List Str)
+    (hr : WellFormedRange range) (ht : WellFormedTag tag) :
+    Lang.filterCore range tag = c13Match range tag := by
+  obtain ⟨s, ss, rfl, hs⟩ := wellFormedTag_cons ht
+  cases range with
+  | nil => exact absurd hr (by simp [WellFormedRange])
+  | cons r rs =>
+    rw [filterCore_eq r rs s ss hr]
+    unfold c13Match
+    rw [stripWild_of_wellFormed _ hr]
+    by_cases he : r :: rs = emptyText
+    · simp only [emptyText, List.cons.injEq] at he
+      obtain ⟨rfl, rfl⟩ := he
+      by_cases hs' : s = []
+      · have := hs hs'; subst hs'; subst this
+        decide
+      · simp [extFilterAlg, emptyText, rfcLoop_nil, star, hs']
+    · by_cases hst : r :: rs = [star]
+      · simp only [List.cons.injEq] at hst
+        obtain ⟨rfl, rfl⟩ := hst
+        cases s <;> cases ss <;> simp [extFilterAlg, emptyText, rfcLoop_nil, star]
+      · have h1 : (r :: rs == emptyText) = false := by simpa using he
+        have h2 : (r :: rs == [star]) = false := by simpa using hst
+        simp [h1, h2]
+
+theorem c13Match_stripWild (range tag : List Str) :
+    c13Match (stripWild range) tag = c13Match range tag := by
+  unfold c13Match
+  rw [stripWild_idem, extFilterAlg_stripWild]
+
+theorem filterCore_stripWild_eq (r : Str) (rs : List Str) (s : Str) (ss : List Str)
+    (hne : ∀ x ∈ rs, x ≠ []) :
+    Lang.filterCore (stripWild (r :: rs)) (s :: ss) =
+      (extFilterAlg (r :: rs) (s :: ss) &&
+        !(stripWild (r :: rs) == [star] && s :: ss == emptyText)) := by
+  have hwf := stripWild_wellFormed r rs hne
+  rw [← extFilterAlg_stripWild (r :: rs)]
+  exact filterCore_eq r _ s ss hwf
+
+theorem filterCore_stripWild_eq_c13Match (range tag : List Str)
+    (hne : range ≠ []) (htl : ∀ x ∈ range.tail, x ≠ []) (ht : WellFormedTag tag) :
+    Lang.filterCore (stripWild range) tag = c13Match range tag := by
+  cases range with
+  | nil => exact absurd rfl hne
+  | cons r rs =>
+    rw [← c13Match_stripWild]
+    exact filterCore_eq_c13Match _ _ (stripWild_wellFormed r rs htl) ht
+
+theorem wellFormedTag_map_lower {tag : List Str} (ht : WellFormedTag tag) :
+    WellFormedTag (tag.map lower) := by
+  rcases ht with h | ⟨hne, hall⟩
+  · left; subst h; rfl
+  · right
+    refine ⟨by simpa using hne, ?_⟩
+    intro x hx
+    simp only [List.mem_map] at hx
+    obtain ⟨y, hy, rfl⟩ := hx
+    exact fun h => hall y hy ((lower_eq_nil y).1 h)
+
+theorem extendedFilter_eq_c13Match (w : Str → Str) (range tag : Str)
+    (hw : splitOn 45 (w range) = stripWild (splitOn 45 range))
+    (hne : ∀ x ∈ (splitOn 45 range).tail, x ≠ [])
+    (ht : WellFormedTag (splitOn 45 tag)) :
+    Lang.extendedFilter w range tag =
+      c13Match ((splitOn 45 range).map lower) ((splitOn 45 tag).map lower) := by
+  unfold Lang.extendedFilter
+  rw [splitOn_lower, splitOn_lower, hw, ← stripWild_map_lower]
+  apply filterCore_stripWild_eq_c13Match
+  · simpa using splitOn_ne_nil 45 range
+  · intro x hx
+    rw [← List.map_tail, List.mem_map] at hx
+    obtain ⟨y, hy, rfl⟩ := hx
+    exact fun h => hne y hy ((lower_eq_nil y).1 h)
+  · exact wellFormedTag_map_lower ht
+
+/-! ### Decidability of the hypotheses (for examples) -/
+
+instance decWellFormedRange : (rs : List Str) → Decidable (WellFormedRange rs)
+  | [] => isFalse (fun h => h)
+  | _ :: rs => inferInstanceAs (Decidable (∀ x ∈ rs, x ≠ [] ∧ x ≠ star))
+
+instance decEmbedsAt : (rs ts : List Str) → (ps : List Nat) → Decidable (EmbedsAt rs ts ps)
+  | [], _, [] => isTrue trivial
+  | r :: rs, ts, p :: ps =>
+    have := decEmbedsAt rs (ts.drop (p + 1)) ps
+    inferInstanceAs (Decidable ((∀ x ∈ ts.take p, isSingleton x = false) ∧ ts[p]? = some r ∧
+      EmbedsAt rs (ts.drop (p + 1)) ps))
+  | [], _, _ :: _ => isFalse (fun h => h)
+  | _ :: _, _, [] => isFalse (fun h => h)
+
 end LangLemmas
 end SoupVerif
